@@ -1338,7 +1338,7 @@ class ManifestRecursiveLoader:
                         mm.entries.append(fe)
                         self.updated_manifests.add(mmpath)
                     else:
-                        if ftype == 'AUX':
+                        if fe.tag == 'AUX':
                             # AUX has implicit files/ prefix in .path
                             # but for now, we've shoved our path
                             # into .aux_path
